@@ -132,9 +132,48 @@ def r2_nodes_edges(R) -> None:
     sides = {}
     for n in f.cfg.nodes:
         a = n.ast
-        if n.kind == 'stmt' and isinstance(a, ast.Assign) and isinstance(a.value, ast.ListComp) and 'finditer' in text(a.value):
-            arg = [x for x in ast.walk(a.value) if method_call(x, 'finditer')][0].args[0]
-            sides[text(a.targets[0])] = (text(arg), text(a.value.elt))
+        if n.kind != 'stmt' or not isinstance(a, ast.Assign):
+            continue
+        pairs_ = [(a.targets[0], a.value)]
+        if isinstance(a.targets[0], ast.Tuple) and isinstance(a.value, ast.Tuple) and len(a.targets[0].elts) == len(a.value.elts):
+            pairs_ = list(zip(a.targets[0].elts, a.value.elts))      # `lhs_terms, rhs_terms = ([...], [...])`
+        if isinstance(a.targets[0], ast.Name) and isinstance(a.value, ast.Tuple):
+            # `both = ([...], [...])`: the halves are both[0], both[1]
+            pairs_ = [(ast.parse(f'{a.targets[0].id}[{i_}]', mode='eval').body, e_) for i_, e_ in enumerate(a.value.elts)]
+        for (tg_, v_) in pairs_:
+            if isinstance(v_, ast.ListComp) and 'finditer' in text(v_):
+                arg = [x for x in ast.walk(v_) if method_call(x, 'finditer')][0].args[0]
+                sides[text(tg_)] = (text(arg), text(v_.elt))
+    # two passes: the first loop appends one tuple per equation to a local list, the second unpacks it - the names of the
+    # second loop stand for the elements appended by the first
+    alias = {}
+    stale = []
+    for n in f.cfg.nodes:
+        if n.kind == 'for' and isinstance(n.ast.iter, ast.Name) and isinstance(n.ast.target, ast.Tuple) and sp and n.id not in sp[0].loops:
+            L_ = n.ast.iter.id
+            apps = [m for m in f.cfg.nodes if m.ast is not None and m.kind == 'stmt' and sp[0].loops and sp[0].loops[-1] in m.loops
+                    and any(method_call(x, 'append') and text(x.func.value) == L_ and len(x.args) == 1 for x in ast.walk(m.ast))]
+            if len(apps) == 1:
+                tup = [x for x in ast.walk(apps[0].ast) if method_call(x, 'append')][0].args[0]
+                if isinstance(tup, ast.Tuple) and len(tup.elts) == len(n.ast.target.elts):
+                    for t_, e_ in zip(n.ast.target.elts, tup.elts):
+                        alias[text(t_)] = text(e_)
+                elif isinstance(tup, ast.Name):
+                    for i_, t_ in enumerate(n.ast.target.elts):
+                        alias[text(t_)] = f'{tup.id}[{i_}]'
+                # a name bound by the first loop and used in the second without being one of its targets holds the value of
+                # the *last* equation there
+                first_vars = {x.id for x in ast.walk(f.cfg.nodes[sp[0].loops[-1]].ast.target) if isinstance(x, ast.Name)} | set(sides)
+                second_vars = {x.id for x in ast.walk(n.ast.target) if isinstance(x, ast.Name)}
+                for m in f.cfg.nodes:
+                    if m.ast is not None and n.id in m.loops and m.kind in ('stmt', 'test'):
+                        for x in ast.walk(m.ast):
+                            if isinstance(x, ast.Name) and isinstance(x.ctx, ast.Load) and x.id in first_vars and x.id not in second_vars:
+                                stale.append((m, x.id))
+    for (m, nm_) in stale[:1]:
+        R.violation(Q, f'stale-loop-variable:{nm_}', f'`{m.label()[:60]}` uses `{nm_}`, which the first pass over the equations bound and the second pass does not: it holds '
+                    f'the value of the last equation for every node (every left-hand term carries the last equation of the model)', where=f.where(m))
+        return
     lhs_name = [k for k, v in sides.items() if v[0] == left]
     rhs_name = [k for k, v in sides.items() if v[0] == right]
     if not (lhs_name and rhs_name):
@@ -148,10 +187,11 @@ def r2_nodes_edges(R) -> None:
     if R.require(Q, len(nodes), 'G.add_nodes_from(<lhs terms>, equation=e)', fi=f.fi, pred=lambda x: method_call(x, 'add_nodes_from', 'add_node')):
         c = nodes[0]
         ev_ = text(f.cfg.nodes[sp[0].loops[-1]].ast.target) if sp[0].loops else 'e'
-        direct = text(c.args[0]) == ln and kwarg(c, 'equation') is not None and text(kwarg(c, 'equation')) == ev_
+        A_ = lambda t_: alias.get(t_, t_)
+        direct = A_(text(c.args[0])) == ln and kwarg(c, 'equation') is not None and A_(text(kwarg(c, 'equation'))) == ev_
         # or: the nodes first, then the attribute for all of them at once
         later = False
-        if text(c.args[0]) == ln and kwarg(c, 'equation') is None:
+        if A_(text(c.args[0])) == ln and kwarg(c, 'equation') is None:
             for x in ast.walk(f.fi.node):
                 if is_call(x, 'nx.set_node_attributes', 'networkx.set_node_attributes') and len(x.args) >= 2 and (is_const(kwarg(x, 'name'), 'equation') or (len(x.args) > 2 and is_const(x.args[2], 'equation'))):
                     m_ = x.args[1]
@@ -190,6 +230,7 @@ def r2_nodes_edges(R) -> None:
             a0, a1 = text(ge.elt.elts[0]), text(ge.elt.elts[1])
         else:
             a0, a1 = text(c.args[0]), text(c.args[1])
+        loops = {k: alias.get(v, v) for k, v in loops.items()}
         ok = loops.get(a0) == rn and loops.get(a1) == ln
         R.check(ok, Q, f'edge-direction:{loops.get(a0)}->{loops.get(a1)}', 'edges run from each right-hand term to each left-hand term (source -> defined)',
                 f'`{text(c)}` adds an edge from a term of `{loops.get(a0)}` to a term of `{loops.get(a1)}`; expected right-hand -> left-hand',
